@@ -70,13 +70,19 @@ def scenario(rng, nops, collide=False):
     return lines
 
 
-def run_scenario(exe, lines, timeout=900):
+def run_scenario(exe, lines, timeout=60):
     import subprocess
     env = dict(os.environ)
     env["K6_TMP"] = os.path.join(C.CACHE, "k6tmp")
     os.makedirs(env["K6_TMP"], exist_ok=True)
-    p = subprocess.run([exe], input="\n".join(lines) + "\n", env=env, stdout=subprocess.PIPE, stderr=subprocess.PIPE,
-                       timeout=timeout, universal_newlines=True, errors="replace")
+    try:
+        p = subprocess.run([exe], input="\n".join(lines) + "\n", env=env, stdout=subprocess.PIPE, stderr=subprocess.PIPE,
+                           timeout=timeout, universal_newlines=True, errors="replace")
+    except subprocess.TimeoutExpired as e:
+        out = e.stdout or ""
+        if isinstance(out, bytes):
+            out = out.decode(errors="replace")
+        return -999, out.splitlines(), "TIMEOUT: the harness did not finish within %ds (hang / livelock / spin on a corrupted lock array)" % timeout
     res = p.stdout.splitlines()
     return p.returncode, res, p.stderr[-1500:]
 
